@@ -317,9 +317,27 @@ where
         }
     }
 
-    pub(crate) fn sending_state_changed(&mut self, peer_id: PeerId, state: SendingState) {
+    pub(crate) fn sending_state_changed(
+        &mut self,
+        peer_id: PeerId,
+        connection_id: ConnectionId,
+        state: SendingState,
+    ) {
         if let Some(peer) = self.peers.get_mut(&peer_id) {
-            peer.sending_state = state;
+            // `sending_state` is per peer but each peer can have many connections. Only
+            // the connection that was asked to send the current wantlist can report about
+            // it. A late report of a connection that timed out must not overwrite the
+            // state of the transmission that replaced it.
+            let sending_connection = match peer.sending_state {
+                SendingState::Requested(_, id)
+                | SendingState::RequestReceived(_, id)
+                | SendingState::Sending(_, id) => Some(id),
+                SendingState::Ready | SendingState::Failed(_) => None,
+            };
+
+            if sending_connection == Some(connection_id) {
+                peer.sending_state = state;
+            }
         }
     }
 
